@@ -240,6 +240,23 @@ def ops_for(kind):
         ("setattr-new", ["newattr"], lambda x, E: setattr(x, "newattr", E.v(2))),
         ("delattr-missing", ["nosuchattr"], lambda x, E: delattr(x, "nosuchattr")),
     ]
+    if kind == "cls":
+        # the target is a class object (conn.modules.x.SomeClass, proxy.__class__, ...): comparisons go to the metaclass
+        return [
+            ("eq-self", ["__eq__"], lambda x, E: x == x),
+            ("ne-self", ["__ne__"], lambda x, E: x != x),
+            ("eq-val", ["__eq__"], lambda x, E: x == E.v(0)),
+            ("ne-val", ["__ne__"], lambda x, E: x != E.v(1)),
+            ("eq-other", ["__eq__"], lambda x, E: x == E.o),
+            ("lt-other", ["__lt__"], lambda x, E: x < E.o),
+            ("repr", [], lambda x, E: repr(x)),
+            ("str", [], lambda x, E: str(x)),
+            ("hash", [], lambda x, E: hash(x)),
+            ("name", ["__name__"], lambda x, E: x.__name__),
+            ("isinstance-type", None, lambda x, E: isinstance(x, type)),
+            ("construct", None, lambda x, E: x(E.n(0, 5), E.n(1, 5))),
+            ("in-list", ["__eq__"], lambda x, E: x in [1, "a"]),
+        ]
     if kind == "dyn":
         return [
             ("len", ["__len__"], lambda x, E: len(x)),
@@ -414,11 +431,17 @@ def make_target(kind, w):
         return io.BytesIO(b"hello\nworld\n"), [0]
     if kind == "dyn":
         return None, [0]
+    if kind == "cls":
+        return Vec, Other
     return Vec(1 + w.draw(3), w.draw(4)), Vec(2, 5)
 
 
-KINDS = ("list", "dict", "set", "bytearray", "deque", "iterator", "generator", "bytesio", "vec", "list", "vec", "dyn")
-CLS = {"list": list, "dict": dict, "set": set, "bytearray": bytearray, "deque": collections.deque, "bytesio": io.BytesIO, "vec": Vec}
+KINDS = ("list", "dict", "set", "bytearray", "deque", "iterator", "generator", "bytesio", "vec", "list", "vec", "dyn", "cls")
+class Other(object):
+    """a second class object to compare the class target with"""
+
+
+CLS = {"cls": type, "list": list, "dict": dict, "set": set, "bytearray": bytearray, "deque": collections.deque, "bytesio": io.BytesIO, "vec": Vec}
 IMMS = [0, 1, "a", (2, 3), None, 1.5, "z", 9, (1, 2), 2, "b", b"q", True, -1]
 
 
